@@ -3,4 +3,6 @@ import BobModel.Util.Bytes
 import BobModel.Util.Sha1
 import BobModel.Util.Proto
 import BobModel.Props.C10
+import BobModel.Props.C11
+import BobModel.Props.C14
 import BobModel.Props.C17
